@@ -487,6 +487,11 @@ func (sp *subProcess) startAll(ctx context.Context) error {
 			return err
 		}
 	}
+	if len(sp.element.StartEventField) > 0 {
+		// entered through its start events: a throw event inside is an ordinary node that a token
+		// reaches over its incoming flow, it must not get a token of its own
+		return nil
+	}
 	for i := range *sp.element.IntermediateThrowEvents() {
 		err := sp.startWith(ctx, &(*sp.element.IntermediateThrowEvents())[i])
 		if err != nil {
